@@ -531,10 +531,18 @@ class RouteController:
 
             next_hop.route_count -= 1
 
-            if next_hop.route_count == 0:
+            if next_hop.route_count == 0 and any(
+                ip != route_entry.next_hop_ip
+                and neighbor.mac_address == next_hop.mac_address
+                for ip, neighbor in self._neighbor_cache.items()
+            ):
+                # another next hop with the same MAC still sends its routes through the module
+                del self._neighbor_cache[route_entry.next_hop_ip]
+                logger.info("Deleted item from neighbor cache, module still in use")
+            elif next_hop.route_count == 0:
                 route_module = get_route_module_name(route_entry.interface)
                 update_module_name = get_update_module_name(
-                    route_module_name=route_module,
+                    route_module_name=route_entry.interface,
                     mac_address=next_hop.mac_address,
                 )
 
